@@ -87,6 +87,7 @@ class Recorder:
         self.n = 0              # number of injectable calls issued so far
         self.kinds = []         # kind of each injectable call
         self.fired = None       # (k, kind, path) when the fault fired
+        self.fired_at = None
         self.reads = []         # paths opened for reading through the wrapper
         self.bypassed = 0
 
@@ -125,6 +126,7 @@ class Recorder:
         self.kinds.append(kind)
         if self.fail_at is not None and self.n == self.fail_at and self.fired is None:
             self.fired = (self.n, kind, path)
+            self.fired_at = len(self.trace)       # number of recorded calls completed before the failing one
             return self.variant
         return None
 
